@@ -27,7 +27,9 @@ type zzvQuerier struct {
 	metriccache.Querier
 }
 
-func (c *zzvMetrics) Querier(start, end time.Time) (metriccache.Querier, error) { return &zzvQuerier{}, nil }
+func (c *zzvMetrics) Querier(start, end time.Time) (metriccache.Querier, error) {
+	return &zzvQuerier{}, nil
+}
 func (q *zzvQuerier) QueryAndClose(meta metriccache.MetricMeta, hints *metriccache.QueryHints, result metriccache.MetricResult) error {
 	return nil
 }
@@ -161,6 +163,7 @@ func ZzvC11CPUVictims() {
 		zzverif.Assert(v.eligible, "every victim is a pod the policy allows (eviction enabled, running, not opted out, with metrics)")
 		zzverif.Assert(v.prio <= int64(threshold), "every victim's priority is not above the configured threshold")
 		if k > 0 {
+			zzverif.Reach("two-victims-listed")
 			a := find(got[k-1])
 			sub := a.request >= v.request
 			if byUsed {
